@@ -14,7 +14,8 @@ Ltac rbrute :=
          request_ready, reset_all_status, reset_round_status, update_combs, map_p, upd_p, with_st, with_players, with_result, rv;
   repeat match goal with |- context [if ?c then _ else _] => destruct c end; reflexivity.
 
-Lemma rv_pay g i chips w : rv (pay g i chips w) = rv g. Proof. rbrute. Qed.
+Lemma rv_pay g i chips w : rv (pay g i chips w) = rv g.
+Proof. pose proof (qv_pay g i chips w) as H. unfold qv in H. unfold rv. injection H as _ -> _ _ _ _ _ _ _ _ _ _. reflexivity. Qed.
 Lemma rv_round_closed g : rv (round_closed g) = rv g. Proof. rbrute. Qed.
 Lemma rv_set_current g i : rv (set_current g i) = rv g. Proof. rbrute. Qed.
 Lemma rv_reset_all g : rv (reset_all g) = rv g. Proof. rbrute. Qed.
